@@ -225,6 +225,12 @@ Record npos := { np_row : N;        (* start_position().row *)
                  np_start : N;      (* start_byte() *)
                  np_end : N }.      (* end_byte() *)
 
+(* The WORDING of the two kinds is not constrained by the property ("cites the node's line and column"): the display
+   functions below take it as a parameter [kt]; the correspondence stream reads the two phrases off the
+   implementation (calibration on a fixed source) and passes them in, so that rewording the messages is not reported
+   as a difference.  [kind_text] is the wording of the source as of the pinned commit (used by the examples). *)
+Definition kt_of (missing unexpected : str) (k : pkind) : str :=
+  match k with KMissing => missing | KUnexpected => unexpected end.
 Definition kind_text (k : pkind) : str :=
   match k with
   | KMissing => [109;105;115;115;105;110;103;32;115;121;110;116;97;120]                 (* "missing syntax" *)
@@ -238,8 +244,8 @@ Definition cite (path : str) (row col : N) : str :=
 Definition range_is_empty (p : npos) : bool := np_end p <=? np_start p.   (* Range::is_empty = !(start < end) *)
 
 (* impl Display for ParseErrorDisplay (parse_error.rs:95-128); panic sites 1, 2 = the two slices *)
-Definition display_plain (path src : str) (k : pkind) (p : npos) : outcome unit str :=
-  let head := cite path (np_row p) (np_col p) ++ [32] ++ kind_text k in
+Definition display_plain (kt : pkind -> str) (path src : str) (k : pkind) (p : npos) : outcome unit str :=
+  let head := cite path (np_row p) (np_col p) ++ [32] ++ kt k in
   if range_is_empty p then Ok (head ++ [10])
   else
     obind (slice_bytes 1 src (np_start p) (np_end p)) (fun txt =>
@@ -271,8 +277,8 @@ Definition excerpt (path src : str) (row cs ce : N) : str :=
    Since the fix "pretty display of a missing-syntax error cites its location" there is no special
    case for an empty byte range: the source is sliced and the excerpt printed for EVERY node (a
    zero-width node gets an empty column range, i.e. no carets). *)
-Definition display_pretty (path src : str) (k : pkind) (p : npos) : outcome unit str :=
-  let head := kind_text k ++ [10] in
+Definition display_pretty (kt : pkind -> str) (path src : str) (k : pkind) (p : npos) : outcome unit str :=
+  let head := kt k ++ [10] in
   obind (slice_bytes 3 src (np_start p) (np_end p)) (fun txt =>
   let start_column := np_col p in
   let end_column := np_col p + N.of_nat (length (until_nl txt)) in
@@ -331,15 +337,15 @@ Definition outcome_matches (m : outcome unit str) (o : option str) : bool :=
    model's text; 8 model did not return Ok; 9 observation lists malformed; 10 moved display differs;
    11 a display of a reported error does not cite "path:row+1:col+1:" (property-level failure, judged on
    the flags computed by the harness from the real text, independently of the model) *)
-Fixpoint disp_verdict (path src : str) (pos : list (N * npos)) (l : list perr) (ds : list disp_obs) : N :=
+Fixpoint disp_verdict (kt : pkind -> str) (path src : str) (pos : list (N * npos)) (l : list perr) (ds : list disp_obs) : N :=
   match l, ds with
   | [], [] => 0
   | (k, i) :: l', d :: ds' =>
       match pos_lookup i pos with
       | None => 9
       | Some p =>
-          let mp := display_plain path src k p in
-          let mq := display_pretty path src k p in
+          let mp := display_plain kt path src k p in
+          let mq := display_pretty kt path src k p in
           (* property-level failures first, judged on the real text alone: a display panicked (12) or does not cite (11) *)
           if match d_plain d, d_pretty d with Some _, Some _ => false | _, _ => true end then 12
           else if negb (d_cites_plain d && d_cites_pretty d) then 11
@@ -350,12 +356,12 @@ Fixpoint disp_verdict (path src : str) (pos : list (N * npos)) (l : list perr) (
             let cp := match mp with Ok s => is_prefix c s | _ => false end in
             let cq := match mq with Ok s => contains c s | _ => false end in
             if negb (Bool.eqb cp (d_cites_plain d) && Bool.eqb cq (d_cites_pretty d)) then 7
-            else disp_verdict path src pos l' ds'
+            else disp_verdict kt path src pos l' ds'
       end
   | _, _ => 9
   end.
 
-Definition c18_verdict (t : ptree) (path src : str) (o : c18_obs) : N :=
+Definition c18_verdict (kt : pkind -> str) (t : ptree) (path src : str) (o : c18_obs) : N :=
   if negb (oracle_ok (o_has_error o) t) then 99
   else
     match pe_all (o_has_error o) (enough_fuel t) t, pe_first (o_has_error o) (enough_fuel t) t with
@@ -365,16 +371,16 @@ Definition c18_verdict (t : ptree) (path src : str) (o : c18_obs) : N :=
         else if negb (list_eqb perr_eqb l (o_into_all o)) then 3
         else if negb (operr_eqb f (o_into_first o)) then 4
         else if negb (o_moved_display_same o) then 10
-        else disp_verdict path src (o_pos o) l (o_disp o)
+        else disp_verdict kt path src (o_pos o) l (o_disp o)
     | _, _ => 8
     end.
 
 (* printed in replay files *)
-Definition c18_detail (he : bool) (t : ptree) (path src : str) (pos : list (N * npos)) :=
+Definition c18_detail (kt : pkind -> str) (he : bool) (t : ptree) (path src : str) (pos : list (N * npos)) :=
   (any_flagged t, pe_all he (enough_fuel t) t, pe_first he (enough_fuel t) t,
    match pe_all he (enough_fuel t) t with
    | Ok l => map (fun '(k, i) => match pos_lookup i pos with
-                                 | Some p => Some (display_plain path src k p, display_pretty path src k p)
+                                 | Some p => Some (display_plain kt path src k p, display_pretty kt path src k p)
                                  | None => None end) l
    | _ => []
    end).
